@@ -14,7 +14,7 @@ EXPLANATION = (
     'Poll::Pending first keeps the waker (clone stored or sent, AtomicWaker::register) or comes from the Pending edge of a delegated '
     'poll with the same context (one tabled exception: the command ShellRequest whose channel closed is deliberately unwakeable); '
     'R05.d the legacy futures check their slot and store the waker under one lock that the resolve closure also holds; R05.e a legacy '
-    'resolution is followed on every path by taking and waking the stored waker. Output equivalence across hosts is not decided. R05.f no hosting function drops an output it has pulled from a hosted command (the linear rule of C01 restricted to the hosts). R05.g both executor loops run to quiescence (shared with C01). R05.h over the serialized bridge a response resumes exactly the request issued under its id: lookup, resolution and removal of the registry entry use that id inside one lock region (shared with C09 / C08).')
+    'resolution is followed on every path by taking and waking the stored waker. Output equivalence across hosts is not decided. R05.f no hosting function drops an output it has pulled from a hosted command (the linear rule of C01 restricted to the hosts). R05.g both executor loops run to quiescence (shared with C01). R05.h over the serialized bridge a response resumes exactly the request issued under its id: lookup, resolution and removal of the registry entry use that id inside one lock region (shared with C09 / C08). R05.i every run of the executor in Core::process is followed by a look at the event channel (shared with C03 R03.f).')
 
 POLL_NAMES = ('poll', 'poll_next', 'poll_unpin', 'poll_next_unpin', 'try_poll', 'try_poll_next', 'poll_fill_buf', 'poll_read',
               'poll_ready', 'poll_flush', 'poll_close')
